@@ -291,7 +291,13 @@ theorem start_bfs (pf : Nat) (hTop : ∀ g a, BfsG defs g → BfsS defs (top g a
   | fresh h => simp only [start]; exact .lazy (.pause h)
   | anyo h =>
     simp only [start]
-    refine mplus_bfs ?_ (.delay (mplus_bfs (.lazy (.pause (.anyo h))) (.delay .empty)))
+    have mk : ∀ {g : Goal St K}, BfsG defs g → BfsG defs (mkConj g .succeed) := by
+      intro g hg; unfold mkConj; split
+      · exact .succeed
+      split
+      · exact .fail
+      exact .conj hg .succeed
+    refine mplus_bfs ?_ (.delay (mplus_bfs (.lazy (.pause (.anyo (mk (mk h))))) (.delay .empty)))
     split
     · exact .unit _
     split
